@@ -13,6 +13,7 @@ mod c06;
 mod c07;
 mod docgen;
 mod c08;
+mod c09;
 mod proc;
 mod c11;
 mod c16;
@@ -32,6 +33,7 @@ fn property(id: &str) -> Option<Property> {
         "C06" => c06::property(),
         "C07" => c07::property(),
         "C08" => c08::property(),
+        "C09" => c09::property(),
         "C11" => c11::property(),
         "C16" => c16::property(),
         "C17" => c17::property(),
